@@ -116,9 +116,10 @@ def run(entries, acts=None):
         if d.get('ok'):
             gid = 'g%d' % k
             ids[name] = gid
-            text.append(vlib.model_grammar_text(gid, d))
-            text.append('T\n')
-    lines = vlib.model_eval(''.join(text)) if text else []
+            text.append(vlib.model_grammar_text(gid, d) + 'T\n')
+    # one self-contained chunk per grammar, spread over the cores (largest first)
+    text.sort(key=len, reverse=True)
+    lines = vlib.model_eval_chunks(text) if text else []
     bygid = {}
     for ln in lines:
         bygid.setdefault(ln.split(' ', 1)[0], []).append(ln)
